@@ -180,6 +180,7 @@ func (s *State) spawn(parent *Thread, fv Value, args []Value, cc *ssa.CallCommon
 	th := &Thread{id: len(s.threads), name: cl.Fn.Name()}
 	s.tick(parent)
 	th.vc = parent.vc.clone()
+	s.tick(parent) // what the parent does after the go statement is concurrent with the child
 	s.tick(th)
 	s.threads = append(s.threads, th)
 	saved := s.cur
@@ -465,6 +466,8 @@ func (s *State) hbSync(a, b *Thread) {
 	j := a.vc.clone().join(b.vc)
 	a.vc = j.clone()
 	b.vc = j.clone()
+	s.tick(a)
+	s.tick(b)
 }
 
 func (s *State) doSend(th *Thread, fr *Frame, in *ssa.Send) {
@@ -494,6 +497,7 @@ func (s *State) chanSend(th *Thread, ch *ChanObj, v Value) {
 	}
 	s.tick(th)
 	ch.Buf = append(ch.Buf, chanMsg{v, th.vc.clone()})
+	s.tick(th)
 }
 
 func (s *State) chanRecv(th *Thread, ch *ChanObj) (Value, bool) {
@@ -585,6 +589,7 @@ func (s *State) chanClose(th *Thread, ch *ChanObj) {
 	s.tick(th)
 	ch.Closed = true
 	ch.cvc = th.vc.clone()
+	s.tick(th)
 }
 
 // ---------- the scheduler ----------
